@@ -714,3 +714,47 @@ def creators_link_on_every_path(ctx, F, cg, RULE):
                 ctx.ok(RULE, inst, "linked on every path to Ok")
             else:
                 ctx.violation(RULE, inst + "|linked-conditionally", where(r), "%s can return Ok without linking the relationship into `%s`: the relationship exists by id and type but is missing from the %s neighbours of its endpoint (e.g. the second of two relationships between the same pair)" % (n, direction, direction))
+
+
+def per_row_flags_reset(ctx, F, cg, RULE, op="LeftOuterJoinOperator", outer_idx="current_left_idx"):
+    """A join that walks its left rows with an index and keeps per-left-row flags in its own fields resets every
+    such flag whenever the index advances: a flag set `true` while probing one left row and still `true` for the
+    next makes that row look matched / emitted, and OPTIONAL MATCH drops its null row."""
+    try:
+        r = F.trait_impl_fn(op, "PhysicalOperator", "next")
+    except Exception as e:
+        ctx.anchor_failure(RULE, "%s::next (%s)" % (op, e))
+        return
+    b = Body(F.mir(r["path"]), r)
+    ctx.saw_fn(r["path"]); ctx.saw_calls(len(b.calls()))
+    pre = "%s." % op
+
+    def field_writes(body):
+        out = []
+        for i, j, pl, rv, line, exp in body.stmts():
+            fs = [x[2:] for x in pl[1] if x.startswith("f:") and (pre in x)]
+            if pl[0] == 1 and fs:
+                out.append((fs[-1].rsplit(".", 1)[-1], i, rv, line))
+        return out
+    w = field_writes(b)
+    flags = sorted({f for f, i, rv, line in w if rv[0] == "use" and rv[1][0] == "k" and rv[1][1].strip() == "const true"})
+    # advance sites: writes of the outer index in next, or calls of a helper method of the operator that writes it
+    sites = [("next", b, i) for f, i, rv, line in w if f == outer_idx]
+    for c in b.calls():
+        hr = F.fns.get(c.path)
+        if hr and (hr.get("self") or "").endswith(op) and not hr.get("trait"):
+            hb = Body(F.mir(c.path), hr)
+            hw = field_writes(hb)
+            if any(f == outer_idx for f, i, rv, line in hw):
+                sites.append((c.path.rsplit("::", 1)[-1], hb, None))
+    ctx.floor(RULE, "per-row flags of %s" % op, len(flags), 2)
+    ctx.floor(RULE, "sites advancing %s" % outer_idx, len(sites), 1)
+    for name, body, blk in sites:
+        resets = {f for f, i, rv, line in field_writes(body) if rv[0] == "use" and rv[1][0] == "k" and rv[1][1].strip() == "const false" and (blk is None or i == blk or body.dominates(blk, i) or body.dominates(i, blk))}
+        missing = [f for f in flags if f not in resets]
+        inst = "%s|advance-in-%s" % (op, name)
+        if missing:
+            ctx.violation(RULE, inst + "|flag-not-reset|" + missing[0], where(r),
+                          "%s advances to the next left row (%s) without resetting `%s`, which it sets while probing a row: the next left row inherits it, is taken for matched / already emitted, and an OPTIONAL MATCH row with no passing candidate is dropped instead of being returned with nulls" % (op, name, missing[0]))
+        else:
+            ctx.ok(RULE, inst, "resets %s" % flags)
